@@ -169,3 +169,46 @@ Proof.
   symmetry. apply at_of_view; [apply wf_spec_of; exact Hw|exact d_ok].
 Qed.
 End EndToEnd.
+
+(* ---- pull iterators: the history model's HNX answers for a forward iterator (position next, bound h) are the
+   consecutive (position, digit) pairs that the composed v1/v2 iterator stacks of LayerC3.v deliver ---- *)
+Require Import LayerC3.
+
+Fixpoint hnx_fwd (d : dsrc) (h : option Z) (p : Z) (n : nat) : list (option (Z * Z)) :=
+  match n with
+  | O => []
+  | S n' =>
+    match (if below p h then digit_at d p else None) with
+    | Some x => Some (p, x) :: hnx_fwd d h (p + 1) n'
+    | None => None :: hnx_fwd d h p n'
+    end
+  end.
+
+Theorem hnx_is_pairs d sp : wf_spec sp -> digits_ok d -> forall n p,
+  hnx_fwd d (omin2 (spec_hi sp) (dlen d)) (Z.of_nat p) n
+  = map (option_map zpair) (expect_pairs (Dview (Dn d) (nspec_of sp)) n p).
+Proof.
+  intros Hw Hok. induction n as [|n IH]; intros p; cbn [hnx_fwd expect_pairs map]; [reflexivity|].
+  rewrite (at_of_view d sp p Hw Hok).
+  destruct (Dview (Dn d) (nspec_of sp) p) as [x|]; cbn [option_map map].
+  - f_equal. replace (Z.of_nat p + 1) with (Z.of_nat (S p)) by lia. apply IH.
+  - f_equal. apply IH.
+Qed.
+
+(* a limited view's digits are the parent's cut at the limit: Dview through NLim is LayerC3's Elim *)
+Lemma Dview_lim D l p : Dview D (NLim l) p = Elim D l p.
+Proof. reflexivity. Qed.
+
+(* hnx_fwd is what the history model answers to repeated pulls of one forward iterator *)
+Definition enc_pull (r : option (Z * Z)) : list Z := match r with Some (p, x) => [p; x] | None => [-1; -1] end.
+
+Theorem run_ops_pulls ver d vs : forall n p h lo,
+  run_ops ver d (mkH vs [Some (HistModel.mkIt p true h lo true)]) (repeat (HNX 0) n)
+  = flat_map enc_pull (hnx_fwd d h p n).
+Proof.
+  induction n as [|n IH]; intros p h lo; [reflexivity|].
+  cbn [repeat run_ops step nth h_its HistModel.it_fwd HistModel.it_next HistModel.it_hi HistModel.it_lo HistModel.it_pos hnx_fwd].
+  destruct (if below p h then digit_at d p else None) as [x|] eqn:E.
+  - cbn [firstn skipn app h_views]. cbn [flat_map enc_pull app]. f_equal. f_equal. apply IH.
+  - cbn [flat_map enc_pull app]. f_equal. f_equal. apply IH.
+Qed.
